@@ -11,11 +11,23 @@
   functions as composed: `sin_sq_add_cos_sq` … `atan2_angle`, `pv_annuity`; (L3) "within
   floating-point rounding" is NOT claimed here: that libm approximates these real functions is
   the trusted base (monitored by the harness against an independent 60-digit reference).
+
+  The integer-overflow guard of POWER and PV (`intPowGuard`, `pvGuard`: two Python ints whose exact
+  power has at least 1025 bits give `#NUM!` at once) does not depend on the number type: the
+  theorems `power_guard_*`, `pv_guard_*` hold for every instance, `power_num_iff_guard` /
+  `pv_coercion` say how it sits in front of the real-valued functions.  Termination: every model
+  function is a total Lean definition, so "the model returns" holds by construction; what the
+  guard is about is the SIZE of Python's exact integer `number ** power` (POWER(2,10^15) did not
+  return): `power_below_guard_bounded` bounds it by 2^2048 wherever the guard does not fire.
 -/
 import HotXL.Lemmas.RealOps
+import HotXL.Lemmas.PowGuard
 
 namespace HotXL.Props.C16
-open HotXL HotXL.Ops HotXL.Fn HotXL.Fn.Math HotXL.Fn.Fin HotXL.RealOps
+open HotXL HotXL.Ops HotXL.Fn HotXL.Fn.Math HotXL.Fn.Fin HotXL.RealOps HotXL.Lemmas.PowGuard
+
+-- `2 ^ 1024`, `2 ^ 2048` appear as literals in the statements about the integer-overflow guard
+set_option exponentiation.threshold 2100
 
 deriving instance DecidableEq for HotXL.Ops.ToNum
 
@@ -547,13 +559,17 @@ theorem pv_linear (n pmt fv ty : ℝ) :
   simp [pv]
 
 /-- PV's dispatch: the two optional arguments default to 0, all five are coerced like every other
-    numeric argument and any non-number among them gives `#VALUE!` -/
+    numeric argument and any non-number among them gives `#VALUE!`; then the integer-overflow guard
+    on the growth factor (`pvGuard`: `1 + rate` and `periods` both Python ints with
+    `(1 + rate) ** periods` of at least 1025 bits) gives `#NUM!`, and everything else goes to the
+    closed form `pv` on reals -/
 theorem pv_coercion (r n p f t : Value) :
     PV realOps [r, n, p] = PV realOps [r, n, p, .num (.int 0), .num (.int 0)] ∧
     PV realOps [r, n, p, f] = PV realOps [r, n, p, f, .num (.int 0)] ∧
     PV realOps [r, n, p, f, t] =
       match parseNumber r, parseNumber n, parseNumber p, parseNumber (PV.dflt f), parseNumber (PV.dflt t) with
       | .ok r, .ok n, .ok p, .ok f, .ok t =>
+        if pvGuard r n then .error .num else
         lift (pv realOps ((Num.toRat r : ℚ) : ℝ) ((Num.toRat n : ℚ) : ℝ) ((Num.toRat p : ℚ) : ℝ)
           ((Num.toRat f : ℚ) : ℝ) ((Num.toRat t : ℚ) : ℝ))
       | _, _, _, _, _ => .error .value := by
@@ -561,6 +577,54 @@ theorem pv_coercion (r n p f t : Value) :
   simp only [PV, PV.go]
   cases parseNumber r <;> cases parseNumber n <;> cases parseNumber p <;> cases parseNumber (PV.dflt f) <;>
     cases parseNumber (PV.dflt t) <;> simp [ofNum_real]
+
+/-- PV's guard, for every number type: an integer rate and an integer number of periods with
+    `|1 + rate| ≥ 2`, `periods ≥ 1` and `(bit_length(|1 + rate|) − 1) · periods ≥ 1024` give `#NUM!`
+    whatever the other arguments (numbers) are — and then the exact growth factor
+    `(1 + rate) ^ periods` is indeed at least `2 ^ 1024` in magnitude, beyond every double -/
+theorem pv_guard_num {α : Type} (O : ElemOps α) (r n : Int) (p f t : Num)
+    (h : 1 < (1 + r).natAbs ∧ 0 < n ∧ (1024 : Int) ≤ ((bitLength (1 + r) : Int) - 1) * n) :
+    PV O [.num (.int r), .num (.int n), .num p, .num f, .num t] = .error .num ∧
+    PV O [.num (.int r), .num (.int n), .num p] = .error .num ∧
+    2 ^ 1024 ≤ ((1 + r) ^ n.toNat).natAbs := by
+  have hg : pvGuard (.int r) (.int n) = true := by rw [pvGuard_int]; exact (intPowGuard_iff _ _).mpr h
+  refine ⟨?_, ?_, intPowGuard_sound _ _ (by rw [← pvGuard_int]; exact hg)⟩
+  · simp only [PV, PV.go, PV.dflt, parseNumber, toNumber, hg, if_true]
+  · simp only [PV, PV.go, PV.dflt, parseNumber, toNumber, hg, if_true]
+
+example := pv_guard_num realOps 1 1024 (.int (-100)) (.int 0) (.int 0) (by decide +kernel)
+example := pv_guard_num floatOps 35 (10 ^ 15) (.int 1) (.int 0) (.int 0) (by decide +kernel)
+
+/-- the guard of PV fires for integers only and never at rate 0 (nor at rate −1, −2): a float rate or
+    a float number of periods always goes to the closed form, and so does every pair below the
+    guard, where `(1 + rate) ^ periods` has fewer than 2048 bits -/
+theorem pv_below_guard (r n : Num) :
+    (pvGuard r n = true → ∃ ri ni : Int, r = .int ri ∧ n = .int ni ∧ intPowGuard (1 + ri) ni = true) ∧
+    (∀ ni : Int, pvGuard (.int 0) (.int ni) = false ∧ pvGuard (.int (-1)) (.int ni) = false ∧
+      pvGuard (.int (-2)) (.int ni) = false) ∧
+    (∀ ri ni : Int, 0 ≤ ni → pvGuard (.int ri) (.int ni) = false → ((1 + ri) ^ ni.toNat).natAbs < 2 ^ 2048) := by
+  refine ⟨?_, ?_, ?_⟩
+  · intro h
+    cases r with
+    | flt q => rw [pvGuard_flt_left] at h; cases h
+    | int ri =>
+      cases n with
+      | flt q => rw [pvGuard_flt_right] at h; cases h
+      | int ni => exact ⟨ri, ni, rfl, rfl, by rw [← pvGuard_int]; exact h⟩
+  · intro ni
+    have key : ∀ g : Int, g.natAbs ≤ 1 → intPowGuard g ni = false := by
+      intro g hg
+      cases hb : intPowGuard g ni
+      · rfl
+      · have := ((intPowGuard_iff g ni).mp hb).1; omega
+    exact ⟨by rw [pvGuard_int]; exact key _ (by decide), by rw [pvGuard_int]; exact key _ (by decide),
+      by rw [pvGuard_int]; exact key _ (by decide)⟩
+  · intro ri ni h0 h
+    rw [pvGuard_int] at h
+    exact below_guard_bounded _ _ h0 h
+
+example : pvGuard (.int 1) (.int 1023) = false := by decide +kernel
+example : pvGuard (.flt 1) (.int 5000) = false := rfl
 
 /-! ## RAND, RANDBETWEEN — under the contract of Python's `random` -/
 
@@ -646,38 +710,134 @@ theorem numAbs_value (n : Num) :
     · rename_i h
       rw [abs_of_nonneg (not_lt.mp h)]
 
-/-- POWER on two integers with a non-negative exponent returns the exact integer power (or
-    `#ERROR!` when it is beyond the float range, where `math.isnan` raises OverflowError) -/
+/-- POWER on two integers with a non-negative exponent returns the exact integer power — below the
+    guard (where the guard fires it is `#NUM!`: `power_int_guard`; where the power is beyond the float
+    range without the guard firing it is `#ERROR!`, `math.isnan` raising OverflowError) -/
 theorem power_int_exact (x y r : Int) (hy : 0 ≤ y)
-    (h : powerIntExact (.num (.int x)) (.num (.int y)) = some (.ok r)) : r = x ^ y.toNat := by
+    (h : powerIntExact (.num (.int x)) (.num (.int y)) = some (.ok r)) :
+    r = x ^ y.toNat ∧ intPowGuard x y = false := by
   simp only [powerIntExact, parseNumber, toNumber] at h
   have hy' : ¬ y < 0 := not_lt.mpr hy
   simp only [hy', if_false] at h
   split at h
   · cases h
-  · split at h
+  · rename_i hg
+    split at h
     · cases h
     · cases h
-      rfl
+      exact ⟨intPow_eq x y.toNat, by simpa using hg⟩
 
 example : powerIntExact (.num (.int 2)) (.num (.int 10)) = some (.ok 1024) := by decide +kernel
 
-set_option exponentiation.threshold 2048 in
-/-- the shortcut of the model (`|x| ≥ 2` and `y ≥ 1024` ⇒ overflow) agrees with the overflow test
-    on the exact power -/
-theorem power_int_shortcut (x y : Int) (hx : 2 ≤ x.natAbs) (hy : 1024 ≤ y) :
-    intOverflowsFloat (x ^ y.toNat) = true := by
-  have h1 : 1024 ≤ y.toNat := by omega
-  have h2 : 2 ^ 1024 ≤ x.natAbs ^ y.toNat :=
-    le_trans (Nat.pow_le_pow_right (Nat.succ_pos 1) h1) (Nat.pow_le_pow_left hx _)
-  simp only [intOverflowsFloat, Int.natAbs_pow, decide_eq_true_eq]
-  exact le_trans (Nat.sub_le _ _) h2
+/-- the source constants of the two guards (regenerated from /repo): every integer literal of POWER
+    and PV in source order, and the named ones the model is written with -/
+theorem source_constants_power :
+    Generated.intsPower = [1, 0, 1, 1024] ∧ Generated.intsPv = [0, 0, 0, 1, 1, 0, 1, 1024, 1, 1] ∧
+    Generated.powerGuardMinAbs = 1 ∧ Generated.powerGuardMinPow = 0 ∧ Generated.powerGuardLess = 1 ∧
+    Generated.powerGuardBits = 1024 ∧ Generated.pvGrowthOne = 1 ∧ Generated.pvGuardMinAbs = 1 ∧
+    Generated.pvGuardMinPow = 0 ∧ Generated.pvGuardLess = 1 ∧ Generated.pvGuardBits = 1024 := by
+  decide
 
-example : intOverflowsFloat ((2 : Int) ^ (1024 : Int).toNat) = true := power_int_shortcut 2 1024 (by decide) (by decide)
+/-- the guard of POWER as the code writes it — `abs(number) > 1 and power > 0 and
+    (abs(number).bit_length() - 1) * power >= 1024` with `bit_length` the number of binary digits —
+    and what it means: it fires EXACTLY when the largest power of two not above `|number|`, raised
+    to `power`, reaches `2 ^ 1024` -/
+theorem power_guard_iff (x y : Int) :
+    (intPowGuard x y = true ↔ 1 < x.natAbs ∧ 0 < y ∧ (1024 : Int) ≤ ((bitLength x : Int) - 1) * y) ∧
+    (x ≠ 0 → 2 ^ (bitLength x - 1) ≤ x.natAbs ∧ x.natAbs < 2 ^ bitLength x) ∧
+    (intPowGuard x y = true ↔ 1 < x.natAbs ∧ 0 < y ∧ 2 ^ 1024 ≤ (2 ^ x.natAbs.log2) ^ y.toNat) :=
+  ⟨intPowGuard_iff x y, bitLength_spec x, intPowGuard_exact x y⟩
 
-/-- over the reals POWER never yields `#NUM!` (there are no NaNs) -/
+example : intPowGuard 2 1024 = true ∧ intPowGuard 2 1023 = false ∧ intPowGuard 3 1024 = true ∧
+    intPowGuard 3 1023 = false ∧ intPowGuard (-4) 512 = true ∧ intPowGuard 1 (10 ^ 15) = false ∧
+    intPowGuard 7 0 = false ∧ intPowGuard 7 (-5) = false ∧ intPowGuard (2 ^ 1024) 1 = true := by decide +kernel
+
+/-- where the guard fires POWER is `#NUM!` — for every number type, in particular both for the real
+    numbers and for the doubles the driver runs — and there the exact integer power is at least
+    `2 ^ 1024` in magnitude: beyond every double, so `#NUM!` never replaces a representable result
+    (`float()` of such an int raises OverflowError: `intOverflowsFloat`).  Logicals and integer text
+    count as ints, as in the code. -/
+theorem power_guard_num {α : Type} (O : ElemOps α) (x y : Int) (h : intPowGuard x y = true) :
+    POWER O [.num (.int x), .num (.int y)] = .error .num ∧
+    2 ^ 1024 ≤ (x ^ y.toNat).natAbs ∧ intOverflowsFloat (x ^ y.toNat) = true := by
+  refine ⟨?_, intPowGuard_sound x y h, ?_⟩
+  · simp only [POWER, powGuardArgs, parseNumber, toNumber, h, if_true]
+  · simp only [intOverflowsFloat, decide_eq_true_eq]
+    exact le_trans (Nat.sub_le _ _) (intPowGuard_sound x y h)
+
+example := power_guard_num realOps 2 1024 (by decide +kernel)
+example := power_guard_num floatOps 2 (10 ^ 15) (by decide +kernel)
+example : POWER realOps [.str "2".toList, .str "1024".toList] = .error .num := by
+  simp only [POWER]
+  rw [if_pos (by decide +kernel)]
+
+/-- the guard of the model agrees with the overflow test on the exact power: where it fires,
+    `float(number ** power)` would raise OverflowError (kept under its old name: formerly the
+    model's own shortcut `|x| ≥ 2` and `y ≥ 1024`, now the guard of the code) -/
+theorem power_int_shortcut (x y : Int) (h : intPowGuard x y = true) :
+    intOverflowsFloat (x ^ y.toNat) = true := (power_guard_num realOps x y h).2.2
+
+example : intOverflowsFloat ((2 : Int) ^ (1024 : Int).toNat) = true := power_int_shortcut 2 1024 (by decide +kernel)
+
+/-- on two integers with a non-negative exponent the exact-integer reading of POWER says `#NUM!`
+    exactly where the guard fires -/
+theorem power_int_guard (x y : Int) (hy : 0 ≤ y) :
+    powerIntExact (.num (.int x)) (.num (.int y)) = some (.error .num) ↔ intPowGuard x y = true := by
+  have hy' : ¬ y < 0 := not_lt.mpr hy
+  simp only [powerIntExact, parseNumber, toNumber, hy', if_false]
+  cases hg : intPowGuard x y
+  · simp only [Bool.false_eq_true, if_false, iff_false]
+    split <;> simp
+  · simp
+
+/-- below the guard (exponent ≥ 0) the exact integer `number ** power` that Python computes has
+    fewer than 2048 bits: the computation is bounded independently of the arguments (before the
+    repair POWER(2, 10^15) did not return) -/
+theorem power_below_guard_bounded (x y : Int) (hy : 0 ≤ y) (h : intPowGuard x y = false) :
+    (x ^ y.toNat).natAbs < 2 ^ 2048 := below_guard_bounded x y hy h
+
+example := power_below_guard_bounded 2 1023 (by decide) (by decide +kernel)
+
+/-- the guard looks at Python ints only: it fires iff BOTH arguments parse to ints that meet it; a
+    float argument (even an integral one: POWER(2.0, 5000)) never meets it -/
+theorem power_guard_args (a b : Value) :
+    powGuardArgs a b = true ↔
+      ∃ x y : Int, parseNumber a = .ok (.int x) ∧ parseNumber b = .ok (.int y) ∧ intPowGuard x y = true := by
+  unfold powGuardArgs
+  constructor
+  · intro h
+    split at h
+    · rename_i x y hx hy
+      exact ⟨x, y, hx, hy, h⟩
+    · cases h
+  · rintro ⟨x, y, hx, hy, h⟩
+    rw [hx, hy]
+    exact h
+
+/-- over the reals the number-level power never yields `#NUM!` (there are no NaNs) -/
 theorem power_never_num (x y : ℝ) : power realOps x y ≠ .error .num := by
   unfold power
   cases realOps.pow x y <;> simp
+
+/-- POWER's dispatch over the reals: the guard, then the two parsed numbers go to `power`; hence
+    POWER is `#NUM!` EXACTLY where the guard fires, and below the guard everything said about
+    `power realOps` (`domain_power`, `power_value`) and about the coercion (`coercion_binary`) holds
+    of POWER unchanged -/
+theorem power_num_iff_guard (a b : Value) :
+    (POWER realOps [a, b] = if powGuardArgs a b then .error .num else bin realOps (power realOps) a b) ∧
+    (POWER realOps [a, b] = .error .num ↔ powGuardArgs a b = true) ∧
+    (powGuardArgs a b = false → POWER realOps [a, b] = bin realOps (power realOps) a b) := by
+  refine ⟨rfl, ?_, fun h => by simp only [POWER, h, Bool.false_eq_true, if_false]⟩
+  cases hg : powGuardArgs a b
+  · simp only [POWER, hg, Bool.false_eq_true, if_false, iff_false]
+    rw [coercion_binary]
+    cases parseNumber a <;> cases parseNumber b <;> simp [power_never_num]
+  · simp [POWER, hg]
+
+example : POWER realOps [.num (.int 2), .num (.int 3)] = .ok ((2 : ℝ) ^ (3 : ℝ)) := by
+  rw [(power_num_iff_guard _ _).2.2 (by decide +kernel), coercion_binary]
+  simp only [parseNumber, toNumber, Num.toRat]
+  have := power_value 2 3 (by norm_num)
+  simpa using this
 
 end HotXL.Props.C16
